@@ -195,6 +195,27 @@ pub enum DocsAlways {
     B,
 }
 
+/// first paragraph
+///
+/// second paragraph, after an empty doc line
+///   indented continuation
+#[doc = ""]
+#[doc = "attribute form"]
+#[derive(TypeInfo)]
+#[scale_info(capture_docs = "always")]
+pub enum DocParagraphs {
+    /// unit variant doc
+    ///
+    /// with a paragraph break
+    Unit,
+    /// tuple variant
+    T(
+        ///
+        /// field doc starting with an empty line
+        u8,
+    ),
+}
+
 /// default capture
 #[derive(TypeInfo)]
 #[scale_info(capture_docs = "default")]
